@@ -447,7 +447,7 @@ func trustedBase(run *propRun, cs *ContractSet) []string {
 			}
 		}
 		for _, n := range x.notes {
-			if strings.HasPrefix(n, "trusted-contract ") || strings.HasPrefix(n, "intrinsic ") || strings.HasPrefix(n, "assumed-pure ") {
+			if strings.HasPrefix(n, "trusted-contract ") || strings.HasPrefix(n, "intrinsic ") || strings.HasPrefix(n, "assumed-pure ") || strings.HasPrefix(n, "model: ") {
 				set[n] = true
 			}
 		}
